@@ -242,6 +242,9 @@ def main(argv=None):
     res, skipped = R.run_sharded(c10.worker, [{"desc": d, "sym": ["dup", "hgt"], "fixed": {"spe": 0, "floss": 1}, "relations": [("thl", "exh", "eq")],
                                                "max_paths": mp, "budget_s": bs} for d in cross], budget)
     rep.add_results("thl and exh agree on 6-7-leaf inputs (no oracle; dup, hgt symbolic)", res, skipped, exhaustive=False)
+    huge = [D.random_plain_input(rng2, rng2.randint(2, 4), rng2.randint(2, 4)) for _ in range(40 if tier == "quick" else 400)]
+    res, skipped = R.run_sharded(SR.huge_cost_worker, [{"desc": d, "algos": ["thl", "exh"], "policies": ["any", "all"], "flags": sorted(flags | {"allset"})} for d in huge], budget)
+    rep.add_results("13-16-digit integer cost vectors (concrete companion: exact integer arithmetic, no float round trip)", res, skipped, exhaustive=False)
     rep.add_results("F-COHERENCE witness (outside the coherent region; concrete replay only)", [SR.coherence_witness_result(PROP)], 0, exhaustive=None)
     import superrec2.compute.reconciliation as m1, superrec2.compute.exhaustive as m2
     import superrec2.utils.dynamic_programming as m3, superrec2.model.reconciliation as m4
